@@ -121,6 +121,66 @@ PROPS['C05'] = dict(
 )
 
 
+# ---------------------------------------------------------------- C06, C07 (h_fits)
+import os as _os
+from . import build as _B
+LEAK_ENV = {'ASAN_OPTIONS': 'abort_on_error=1:detect_leaks=1:handle_abort=0:allocator_may_return_null=1:malloc_context_size=12:max_allocation_size_mb=4096'}
+TOOL_EVAL = T('repo:src/tools/eval.cpp', 'asan', name='tool_eval.asan', cinter=False, extra_src=['stubs/hook_stub.cpp'])
+TOOL_INSPECT = T('repo:src/tools/inspect.cpp', 'asan', name='tool_inspect.asan', cinter=False, extra_src=['stubs/hook_stub.cpp'])
+
+
+def c06_passes(tier, sc):
+    golden = _os.path.join(_B.VERIF, 'golden', 'digests.txt')
+    ng = sum(1 for _ in open(golden)) if _os.path.exists(golden) else 0
+    return [Pass('asan', 'h_fits.asan', 'C06', n(tier, 240, 3000, sc)),
+            Pass('golden', 'h_fits.asan', 'C06golden', ng, args=['--golden', golden, '--datadir', _os.path.join(_B.REPO, 'test', 'test_data')], chunk=max(1, ng))]
+
+
+PROPS['C06'] = dict(
+    level_text='Exploration of the serialisation path with three independent observers: (1) an independent writer (raw cfitsio calls) and a '
+               'cfitsio-free encoder produce files in the documented layout that the library must load to exactly the specified arrays; '
+               '(2) library write -> library read must reproduce every field bit-for-bit (NaN/inf/-0/denormal coefficients, extents, periods, aux keys), '
+               'compare equal and evaluate identically, on disk and in memory; (3) the bytes the library wrote are decoded by a cfitsio-free '
+               'decoder that insists on the documented layout. Shipped reference files are compared with committed digests.',
+    level_note=NOTE_COMMON,
+    technique='runtime monitor: independent FITS encoder/decoder + bitwise round-trip oracle + golden digests, under ASan/UBSan',
+    targets=[T('h_fits.cpp', 'asan')],
+    passes=c06_passes,
+    level='exploration',
+    rule='case = random table (1-9 dims, pairwise different axis lengths where possible, orders 0-5, special-value coefficients, random extents/periods, '
+         '0-40 aux keys; variants legacy single ORDER / no EXTENTS / no PERIOD) pushed through independent-writer->read, write->read (disk or memory) and '
+         'write->raw-decode; distinct_nontrivial counts distinct (table,backend) round trips plus shipped files',
+    assumptions=ASSUME_COMMON + ['the cfitsio-free decoder implements the documented layout only (IMAGE extensions, BITPIX -32/-64)'],
+    require={'any': {'roundtrips-disk': 50, 'roundtrips-memory': 50, 'layout-decodes': 150, 'independent-raw-files-read': 150, 'golden-files': 10,
+                     'tables-with-pairwise-different-axes': 100}},
+)
+
+
+def c07_passes(tier, sc):
+    # tool paths are filled in by the driver from the build result (see check: extra_bins)
+    return [Pass('asan', 'h_fits.asan', 'C07', n(tier, 2600, 40000, sc), env=LEAK_ENV, extra_bins={'eval': 'tool_eval.asan', 'inspect': 'tool_inspect.asan'}),
+            # same mutants in the production build: judges the cases ASan cannot (requests above its allocator limit abort under ASan, throw bad_alloc here)
+            Pass('prod', 'h_fits.prod', 'C07', n(tier, 2600, 40000, sc), env={'VF_RLIMIT_AS_MB': '4096'})]
+
+
+PROPS['C07'] = dict(
+    level_text='Structure-aware fault injection on file contents: valid small tables are re-encoded by a cfitsio-free encoder and mutated '
+               '(ORDERn/NAXISn/BITPIX/EXTNAME edits, consistent and inconsistent resizes, dropped/reordered extensions, non-finite/unsorted knots, bit flips, '
+               'truncation, non-spline FITS, random bytes); every reader entry point (C++ memory/disk/constructor, C memory/disk, the two CLI tools) is run '
+               'under ASan+UBSan+LSan. A failed read must leave an empty, reusable, destructible object and leak nothing; a successful read must satisfy '
+               'the well-formedness predicates and survive an evaluation/compare/re-serialise battery.',
+    level_note=NOTE_COMMON + '; crashes wholly inside libcfitsio would be reported with their own key',
+    technique='fault injection on input bytes + sanitizers (ASan/UBSan/LSan) + well-formedness oracle',
+    targets=[T('h_fits.cpp', 'asan'), T('h_fits.cpp', 'prod'), TOOL_EVAL, TOOL_INSPECT],
+    passes=c07_passes,
+    level='fault_enumeration',
+    rule='case = (valid 1-4-d table, one of 24 mutation kinds with random parameters, one of 5 reader entry points; every third case also both CLI tools); '
+         'distinct_nontrivial counts distinct mutated byte strings; counters give accepted/rejected per mutation kind',
+    assumptions=ASSUME_COMMON,
+    require={'any': {'reads-failed': 500, 'reads-succeeded': 150, 'batteries-run': 100, 'reuse-after-failure-checks': 400, 'tool-runs:photospline-eval': 200}},
+)
+
+
 def all_targets():
     seen, out = set(), []
     for p in PROPS.values():
